@@ -19,7 +19,6 @@ package main
 import (
 	"context"
 	"fmt"
-	"os"
 	"runtime"
 	"sort"
 	"strings"
@@ -815,6 +814,56 @@ func (w *world) apply(o op) {
 	case "get":
 		w.checkGets(w.effSlot(o.Slot))
 	}
+	switch o.K {
+	case "commit", "abort", "create", "rawset", "rawdel", "reopen":
+		w.verifyState(o.K)
+	case "update", "delete":
+		kind := o.K + "-by-key"
+		if o.F != nil && !o.F.bareKeys() {
+			kind = o.K + "-by-filter"
+		}
+		w.verifyState(kind)
+	}
+}
+
+// verifyState compares what is actually stored (full scan, no filter) with the model in the
+// committed view and in every open transaction's view. It runs after every write so that a
+// write that selected the wrong rows (filter-driven update/delete through a broken index)
+// is reported once, at the step where it happened, instead of echoing through every later
+// query of the history.
+func (w *world) verifyState(after string) {
+	for slot := -1; slot < nSlots; slot++ {
+		if slot >= 0 && w.txs[slot] == nil {
+			continue
+		}
+		var rows []Row
+		if err := w.s.tbl.NewRetrieve().Entries(&rows).Exec(w.s.ctx, w.tx(slot)); err != nil {
+			w.report("c17:state:scan-error", err.Error())
+			w.stop = true
+			return
+		}
+		v := w.view(slot)
+		ok := len(rows) == len(v)
+		for _, r := range rows {
+			if m, in := v[r.K]; !in || m != r {
+				ok = false
+			}
+		}
+		if !ok {
+			vs := make([]Row, 0, len(v))
+			for _, r := range v {
+				vs = append(vs, r)
+			}
+			sort.Slice(vs, func(i, j int) bool { return vs[i].K < vs[j].K })
+			view := "committed-view"
+			if slot >= 0 {
+				view = "tx-view"
+			}
+			w.report("c17:state-differs-after:"+after+":"+view, fmt.Sprintf("after %s the stored rows seen through %s are %v; the statement's view is %v", after, w.viewTag(slot), rows, vs))
+			w.stop = true
+			return
+		}
+	}
 }
 
 func change(o op, r Row) Row {
@@ -1460,5 +1509,3 @@ func parallel(h *harness.H, layer string, n int, f func(c int)) {
 	close(ch)
 	wg.Wait()
 }
-
-var _ = os.Getenv
